@@ -32,6 +32,37 @@ add("C11", MC, "sched-conc",
     "Trusted: shim fidelity to sync/atomic semantics; sequential consistency; scheduling points at lock/atomic/call/callback granularity are sufficient only for data-race-free code, which the -race pass samples; preemption bound where the tree is large (reported per run).",
     "DESIGN.md §3.2, §5 C11")
 
+CLIENT_NOTE = "Trusted: the simulated kernel (engine/ksim: ACK then data replies in the order the real kernel sends them, one reused poisoned receive buffer) behind the exported Netlink field; virtual clock for the EAGAIN back-off; each op starts with an empty socket queue; nothing ties the simulation to a real audit kernel (deliberately: the sandbox's audit subsystem is live)."
+add("C08", MC, "envdfs-client",
+    "deviation-bounded exhaustive DFS over environment answers (errno verdicts, unsolicited events, transient receive failures, malformed/foreign ACKs) x all short op histories, on the real client against a simulated kernel",
+    "Every history of <=2 (quick) / <=3 (thorough) command methods x kernels holding 0/1/2 rules x every combination of at most 2 (3) non-default environment answers, executed on the real AuditClient. Oracle per op: nil iff every verdict it depended on was 0 (tolerated deviations must not change the result), errors identify the errno (errors.Is or distinct text per errno), returned status/rules/count equal what the kernel sent for that request, a replaced/foreign/short ACK is never accepted.",
+    CLIENT_NOTE, "DESIGN.md §3.3, §5 C08")
+add("C16", EX, "enum-client",
+    "bounded-exhaustive enumeration of setter arguments / reply buffers decoded at fixed UAPI offsets by an independent decoder",
+    "Every setter x value domain (all one-bit / all-but-one-bit values, boundaries, all 2^10 (quick) / 2^16 (thorough) low and high half-words) x both wait modes: exactly one AUDIT_SET, REQUEST|ACK, 44-byte payload with one mask bit and the value at its UAPI offset; GetStatus over one-hot field patterns; 20 exported constants against numbers transcribed from linux/audit.h; FromWireFormat over every length 0..80 x 3 contents x 3 placements (no read outside the buffer). Complete over the stated finite domains.",
+    "Trusted: refdata transcription of linux/audit.h; little-endian host; simulated kernel records the request bytes.", "DESIGN.md §5 C16")
+add("C17", MC, "envdfs-client",
+    "exhaustive enumeration of well-formed op histories x errno assignments against a simulated kernel + all interleavings of concurrent Close under the controlled scheduler + free-running -race pass",
+    "Every well-formed history of <=4 (quick) / <=5 (thorough) ops over {NoWait setters, WaitForPendingACKs, WaitForReply setter, SetPID both modes, GetRules, Close} x every assignment of errno {0,EPERM} to at most 2 (4) requests, followed by drain calls: each NoWait ACK consumed exactly once and in order, first error returned, nothing pending => zero receives, Close closes once / clears the PID iff SetPID was used / later calls are no-ops, rule data unchanged by later receives (poisoned reused buffer); every schedule of 2-3 threads calling Close concurrently; data races sampled by a -race pass.",
+    CLIENT_NOTE + " Stop-or-continue after the first ACK error is not fixed by the statement: either accepted.", "DESIGN.md §5 C17")
+add("C18", EX, "enum-netlink",
+    "bounded-exhaustive enumeration of messages/datagrams over a simulated socket layer behind the syscall seam + all interleavings of concurrent Send under the controlled scheduler + -race pass + conformance replay against the real kernel's verbatim echo on NETLINK_ROUTE",
+    "Send: payload lengths (all 0..8970 in thorough) x 6 (type,flags) x header pid {0,given} decoded at fixed nlmsghdr offsets, sequence = returned value, strictly increasing; Receive: lengths 0..64,100,1000,8985,8986 x 3 contents x 8 senders x blocking/non-blocking x preceding errno: data only for (>=16 bytes and kernel sender), unchanged; audit parser: every length 0..64 with cap==len; concurrent Send: every interleaving of 2-3 threads x 1-3 sends (distinct, own-datagram, increasing); thorough: the modelled wire bytes equal the kernel's verbatim NLMSG_ERROR echo on NETLINK_ROUTE and a user-space NETLINK_USERSOCK multicast is rejected.",
+    "Trusted: simulated socket layer (vsys) - tied to the real socket layer by the conformance pass (thorough tier; skipped and recorded if AF_NETLINK is unavailable); NETLINK_AUDIT is never opened.", "DESIGN.md §5 C18")
+PARSE_NOTE = "Trusted: the independent formatter / kernel-side encoder in the harness (audit_log_untrustedstring rule, struct sockaddr layouts), refdata errno table; complete inside the stated alphabets and lengths, silent outside them."
+add("C04", EX, "enum-parse",
+    "bounded-exhaustive input enumeration against an independent header formatter (complete for the 65536 types and 1000 millisecond values; full boundary products; all prefixes / single-byte corruptions for the error side)",
+    "All 65536 record types x 3 spellings (name, lower case, UNKNOWN[n]) (x 27 header/body variants in thorough), all 1000 ms strings, the full product of boundary types x seconds (to 2^34-1) x ms x sequences (to 2^32-1, leading zeros) x 30 hostile bodies, and for the error side every proper prefix and every single-byte substitution/deletion of boundary headers plus out-of-range numbers and unknown type names. Oracle: RecordType/Timestamp(UTC)/Sequence/RawData equal what was written, ParseLogLine and Parse agree, ToMapStr header keys win over body keys, must-fail headers yield (nil, err).",
+    PARSE_NOTE, "DESIGN.md §5 C04")
+add("C05", EX, "enum-parse",
+    "bounded-exhaustive token-sequence enumeration with crash-isolated workers (panic recovery, no-progress watchdog, trace re-run)",
+    "All token sequences of length <=3 (quick) / <=4 (thorough, 5.4e7 inputs) over an alphabet holding one token per literal/branch the parser reacts to, as whole lines and as bodies behind a valid header x 16 record-type classes; structured key=token bodies; all 65536 types x short bodies; every truncation of every golden log line. Oracle: no panic, no hang, msg==nil <=> err!=nil, Data/Tags/ToMapStr repeatable, error key present iff Data failed.",
+    PARSE_NOTE, "DESIGN.md §5 C05")
+add("C12", EX, "enum-parse",
+    "bounded-exhaustive round trip: independent kernel-side encoder -> Data(), over all short strings of a byte-class alphabet, all IPv4 ports, table-complete syscall/errno enumeration",
+    "Every string of length <=3 (quick) / <=4 (thorough) over a 14-byte class alphabet (minus the stated exclusions) for each decoded field of SYSCALL/CWD/PATH/PROCTITLE/EXECVE/TTY/USER_CMD/USER_LOGIN; all 65536 IPv4 ports x addresses, every single-octet variation, IPv6 and unix addresses; every (arch, nr) of the published tables and nr+-1 for SYSCALL and SECCOMP; every errno 1..4095 both signs (names checked against asm-generic errno, alias-safe); result/unset normalisation; placeholder dropping (key absent, record intact).",
+    PARSE_NOTE, "DESIGN.md §5 C12")
+
 def emit():
     out = {
         "version": 1,
@@ -47,6 +78,10 @@ def emit():
             {"name": "instr", "path": "engine/instr", "serves_properties": ids, "kind_free_text": "check-time instrumenter: AST rewrite + go build -overlay, no files added to /repo"},
             {"name": "sched", "path": "engine/vshim/sched", "serves_properties": ["C11", "C15", "C17", "C18"], "kind_free_text": "controlled cooperative scheduler + stateless DFS over schedules with iterative preemption bounding"},
             {"name": "sched-conc", "path": "checks/conc", "serves_properties": ["C11"], "kind_free_text": "schedule exploration of Reassembler driver programs + free-running race pass"},
+            {"name": "envdfs-client", "path": "checks/client", "serves_properties": ["C08", "C17"], "kind_free_text": "deviation-bounded environment DFS over a simulated kernel (engine/ksim, engine/envdfs)"},
+            {"name": "enum-client", "path": "checks/client", "serves_properties": ["C16"], "kind_free_text": "exhaustive enumeration of setter arguments / reply buffers"},
+            {"name": "enum-netlink", "path": "checks/netlink", "serves_properties": ["C18"], "kind_free_text": "enumeration over a simulated socket layer + schedule exploration of concurrent Send"},
+            {"name": "enum-parse", "path": "checks/parse", "serves_properties": ["C04", "C05", "C12"], "kind_free_text": "bounded-exhaustive input enumeration with crash isolation (engine/enumx)"},
             {"name": "seqx-reasm", "path": "checks/reasm", "serves_properties": ["C01", "C02", "C03", "C10", "C19"], "kind_free_text": "explicit-state BFS/DFS over op sequences on the real Reassembler with property monitors"},
         ],
         "checks": [],
